@@ -1424,6 +1424,7 @@ func uRunX(t *testing.T, sc *uScript, out *vfWriter, scribble, quiet bool, rb *u
 				smu.Lock()
 				chain, rtcpW, rtcpR = nil, nil, nil
 				local, remote = map[uint32]*uBound{}, map[uint32]*uBound{}
+				staleLocal, staleRemote = map[uint32]*uBound{}, map[uint32]*uBound{} // (readers / writers of unbound streams are closures of the chain)
 				smu.Unlock()
 				e.mu.Lock()
 				e.probes, e.pacing = nil, nil
